@@ -34,6 +34,7 @@ type funcNames struct {
 	Sites   map[string][]string `json:"sites,omitempty"` // callee text with site-keyed clauses -> assignment target of each call, in source order
 	Depth   []int             `json:"depth,omitempty"` // per local: number of loops whose body encloses its declaration
 	Loops   []string          `json:"loops,omitempty"` // per loop ordinal (outside function literals): what the loop ranges over / its condition
+	Intro   map[string]string `json:"-"` // current run: pure selector expression -> local introduced for it (x := a.b.c)
 	LoopSeq map[string]string `json:"-"` // current run: loop ordinal -> the slice the loop walks over (ranged expression, or x of `i < len(x)`)
 	LocalPos []int      `json:"-"` // declaration position of each local (current run only)
 	Callees [][2]string `json:"callees,omitempty"` // (callee text, type) of calls through an indexed function value, e.g. subs[i](...)
@@ -135,6 +136,36 @@ func namesOfDecl(p *packages.Package, d *ast.FuncDecl) funcNames {
 			loopBodies = append(loopBodies, [2]int{int(st.Body.Pos()), int(st.Body.End())})
 		case *ast.RangeStmt:
 			loopBodies = append(loopBodies, [2]int{int(st.Body.Pos()), int(st.Body.End())})
+		}
+		return true
+	})
+	// locals that merely name a field path (reply := input.success): callee texts written over the path also match the local
+	fn.Intro = map[string]string{}
+	ast.Inspect(d.Body, func(n ast.Node) bool {
+		as, ok := n.(*ast.AssignStmt)
+		if !ok || as.Tok != token.DEFINE || len(as.Lhs) != len(as.Rhs) {
+			return true
+		}
+		for i, l := range as.Lhs {
+			id, ok := l.(*ast.Ident)
+			if !ok || id.Name == "_" {
+				continue
+			}
+			pure, sel := true, false
+			ast.Inspect(as.Rhs[i], func(m ast.Node) bool {
+				switch m.(type) {
+				case *ast.Ident:
+				case *ast.SelectorExpr:
+					sel = true
+				case nil:
+				default:
+					pure = false
+				}
+				return pure
+			})
+			if pure && sel {
+				fn.Intro[exprStr(as.Rhs[i])] = id.Name
+			}
 		}
 		return true
 	})
@@ -520,7 +551,7 @@ func renamesFor(rec, cur funcNames) map[string]string {
 			}
 			cands = append(cands, j)
 		}
-		if len(cands) == 0 && strings.HasPrefix(l[1], "func(") {
+		if len(cands) == 0 {
 			// a function-typed loop variable that was called: the call may now go through the indexed slice directly
 			done := false
 			for _, ce := range cur.Callees {
@@ -891,6 +922,37 @@ func (E *Engine) repairNames(pkgPath string, pc *PkgContracts) {
 					ren[o] = n
 				}
 			}
+		}
+		if len(cur.Intro) > 0 {
+			recNames := map[string]bool{}
+			for _, l := range rec.Locals {
+				recNames[l[0]] = true
+			}
+			addVariant := func(m map[string][]Clause) {
+				for k, cs := range m {
+					for expr, local := range cur.Intro {
+						if recNames[local] || !strings.Contains(k, expr) {
+							continue
+						}
+						// whole-path occurrence only (followed by end of text or a non-identifier character)
+						i := strings.Index(k, expr)
+						j := i + len(expr)
+						if (i > 0 && (k[i-1] == '.' || k[i-1] == '_' || (k[i-1] >= 'a' && k[i-1] <= 'z') || (k[i-1] >= 'A' && k[i-1] <= 'Z'))) || (j < len(k) && (k[j] == '_' || (k[j] >= 'a' && k[j] <= 'z') || (k[j] >= 'A' && k[j] <= 'Z') || (k[j] >= '0' && k[j] <= '9'))) {
+							continue
+						}
+						nk := k[:i] + local + k[j:]
+						if _, exists := m[nk]; !exists {
+							m[nk] = append([]Clause(nil), cs...)
+							c.UnrenameText = append(c.UnrenameText, [2]string{nk, k})
+							E.nameRepairs = append(E.nameRepairs, fmt.Sprintf("%s.%s: clauses keyed by %q also apply to %q (local introduced for that path)", rel, key, k, nk))
+						}
+					}
+				}
+			}
+			addVariant(c.CallReq)
+			addVariant(c.After)
+			addVariant(c.GhostCall)
+			addVariant(c.RecvAssume)
 		}
 		if base == key && len(rec.Loops) == len(cur.Loops) && len(rec.Loops) > 1 {
 			plain := map[string]string{}
